@@ -33,9 +33,9 @@ BATTERY = {
     "C02": [("stop", 700, 16000), ("dead", 250, 4800), ("ties", 80, 768), ("tiny", 60, 324),
             ("bigrew", 36, 36), ("slow", 40, 108), ("slowrew", 48, 72), ("degen", 75, 75), ("minreachrank", 48, 48), ("zerow", 36, 36)],
     "C03": [("dead", 400, 8000), ("rand", 400, 8000), ("stop", 200, 4000), ("tiny", 80, 324),
-            ("nonabs", 100, 504), ("zerow", 36, 36), ("degen", 75, 75), ("duplabel", 12, 12), ("finaldeadend", 72, 72)],
+            ("nonabs", 100, 504), ("zerow", 36, 36), ("degen", 75, 75), ("duplabel", 12, 12), ("finaldeadend", 72, 72), ("keycollide", 2, 2)],
     "C05": [("stop", 700, 16000), ("dead", 200, 4000), ("ties", 140, 768), ("nonabs", 120, 504),
-            ("bigrew", 36, 36), ("diag", 80, 160), ("samerow", 144, 144), ("slowrew", 36, 72), ("gap5", 16, 16), ("degen", 75, 75), ("minreachrank", 48, 48), ("zerow", 36, 36)],
+            ("bigrew", 36, 36), ("diag", 80, 160), ("samerow", 144, 144), ("slowrew", 36, 72), ("gap5", 16, 16), ("degen", 75, 75), ("minreachrank", 48, 48), ("zerow", 36, 36), ("keycollide", 2, 2)],
     "C06": [("stop", 600, 12000), ("dead", 300, 8000), ("rand", 200, 4000), ("tiny", 60, 324),
             ("edit", 120, 3000), ("nonabs", 100, 504), ("slow", 40, 108),
             ("zerow", 36, 36), ("degen", 75, 75), ("duplabel", 12, 12), ("finaldeadend", 72, 72)],
